@@ -105,11 +105,45 @@ func (c *Case) payload() []byte {
 		return []byte("HTTP/1.1 200 OK\r\nContent-Length: nineteen\r\n\r\n")
 	case "nul-bytes":
 		return bytes.Repeat([]byte{0}, 300)
+	case "control-byte-in-header-name":
+		return []byte("HTTP/1.1 200 OK\r\nX-Bro\x01ken\x7f: v\r\nContent-Length: 0\r\n\r\n")
+	case "control-byte-in-header-value":
+		return []byte("HTTP/1.1 200 OK\r\nX-Fine: a\x00b\x1bc\r\nContent-Length: 0\r\n\r\n")
+	case "cr-in-header-line":
+		return []byte("HTTP/1.1 200 OK\r\nX-Fine: a\rInjected: yes\r\nContent-Length: 0\r\n\r\n")
+	case "control-byte-in-status-line":
+		return []byte("HTTP/1.1 200 O\x02K\x00\r\nBad Header\x03Line\r\n\r\n")
+	case "non-ascii-header-name":
+		return []byte("HTTP/1.1 200 OK\r\nX-\xc3\xa9\xff: v\r\nContent-Length: 0\r\n\r\n")
 	}
 	return []byte("garbage\r\n\r\n")
 }
 
-var payloads = []string{"random", "ssh", "tls-alert", "half-status-line", "huge-status-code", "negative-status-code", "header-without-colon", "bad-version", "bad-content-length", "nul-bytes"}
+var payloads = []string{"random", "ssh", "tls-alert", "half-status-line", "huge-status-code", "negative-status-code", "header-without-colon", "bad-version", "bad-content-length", "nul-bytes",
+	"control-byte-in-header-name", "control-byte-in-header-value", "cr-in-header-line", "control-byte-in-status-line", "non-ascii-header-name"}
+
+// lenientOK lists payloads that Go's own response parser may accept as a valid
+// response (it tolerates some control bytes in values); for them the origin's
+// response coming through is as acceptable as a 502.
+var lenientOK = map[string]bool{"control-byte-in-header-value": true, "cr-in-header-line": true, "non-ascii-header-name": true, "control-byte-in-status-line": true}
+
+// malformedHead reports control bytes in a response head (everything before
+// the first blank line): a well-formed message has none besides CR LF and HT.
+func malformedHead(stream []byte) (bool, int) {
+	end := bytes.Index(stream, []byte("\r\n\r\n"))
+	if end < 0 {
+		end = len(stream)
+	}
+	for i, b := range stream[:end] {
+		if (b < 0x20 && b != '\r' && b != '\n' && b != '\t') || b == 0x7f {
+			return true, i
+		}
+		if b == '\r' && (i+1 >= len(stream) || stream[i+1] != '\n') {
+			return true, i
+		}
+	}
+	return false, 0
+}
 
 // recConn records every byte read from the connection.
 type recConn struct {
@@ -298,6 +332,9 @@ func runOnce(c Case, T time.Duration) (v kit.Verdict) {
 		}
 		v.Addf(sig(class), "response 1 is not a parseable response head (%v); stream %q", err, trunc(rc.bytes(), 200))
 	case res1.StatusCode == 502:
+		if bad, at := malformedHead(rc.bytes()); bad {
+			v.Addf(sig("502-malformed"), "the 502 head carries a raw control byte at offset %d: %q", at, trunc(rc.bytes(), 300))
+		}
 		body, st, berr := readBody(res1)
 		if st != "complete" {
 			v.Addf(sig("502-incomplete"), "the 502 itself is incomplete (%s, %v) after %d body bytes", st, berr, len(body))
@@ -312,6 +349,13 @@ func runOnce(c Case, T time.Duration) (v kit.Verdict) {
 		checkSecond("502")
 	default:
 		// the origin's own response head came through
+		if c.Kind == "nonhttp" && lenientOK[c.Payload] && res1.StatusCode == 200 {
+			// Go's parser accepted the origin's bytes as a response: not a failure that "precedes a complete response head"
+			if _, st, _ := readBody(res1); st == "complete" && !res1.Close {
+				checkSecond("leniently-parsed-response")
+			}
+			break
+		}
 		if c.Kind != "truncate" || c.Cut < headLen {
 			v.Addf(sig("no-502"), "failure precedes a complete response head, yet the client got status %d instead of a 502", res1.StatusCode)
 			break
